@@ -2,6 +2,8 @@
 
 package rdbrestore
 
+import "github.com/mgtv-tech/redis-GunYu/pkg/redis/keyspec"
+
 // Contracts for the verification machinery in /verif (build tag "verif").
 //   recvErrs  number of Receive calls on the target connection that returned an error
 
@@ -32,15 +34,12 @@ package rdbrestore
 // SpecNativeKeyIndex is the position of the key among the arguments of a native command that
 // rdb.Parser.ExecCmd produces for a keyed value (XGROUP CREATE key ... ; key first otherwise).
 func SpecNativeKeyIndex(cmd string) int {
-	if SpecEqualFold(cmd, "xgroup") {
+	if keyspec.SpecEqualFold(cmd, "xgroup") {
 		return 1
 	}
 	return 0
 }
 
-func SpecEqualFold(a, b string) bool { panic("abstract spec function") }
-
-//@ spec SpecEqualFold abstract
 
 func SpecReplyTruth(reply interface{}) bool { panic("abstract spec function") }
 
@@ -91,10 +90,6 @@ func SpecReplyTruth(reply interface{}) bool { panic("abstract spec function") }
 // Every native command a value is expanded into is addressed to the entry's key - the key the
 // EXISTS probe, the DEL of "replace" and the PEXPIRE address (with replaceHashTag it differs from
 // the key the parser read from the snapshot).
-//@ func strings.EqualFold(a, b) (r)
-//@   trusted library contract
-//@   ensures spec: r == SpecEqualFold(a, b)
-
 //@ func nativeCommandWithKey
 //@   arith int
 //@   properties C20
